@@ -21,7 +21,8 @@ deriving instance DecidableEq for Except
 the excluded headers are exactly the headers of the two uuid-carrying row fields the stripped row
 type drops; `"start"`; the `"|goto."` literal and `go_to` type of back-edge rows; the `|` of temp ids. -/
 theorem tables_agree :
-    Gen.exportExcludedHeaders = excludedHeaders ∧ Gen.exportIdFieldHeaders = excludedHeaders ∧
+    Gen.exportExcludedHeaders = excludedHeaders ∧ Gen.exportIdFieldHeaders = idFieldHeaders ∧
+    (∀ h ∈ idFieldHeaders, h ∈ excludedHeaders) ∧
     Gen.exportStartFrom = startStr ∧ Gen.exportStartDict = [(startStr, startStr)] ∧
     Gen.exportGotoIdLiteral = tempIdSeparator ++ gotoPrefix ∧ Gen.exportGotoType = gotoPayload ∧
     Gen.exportTempIdSeparator = tempIdSeparator := by decide
